@@ -318,6 +318,19 @@ func checkExpandOnce(c *Ctx, rule, fkey string, fd *ast.FuncDecl, info *types.In
 		c.Ob(rule, fkey+"/scan", fd, false, "scan loop over the statement list not found")
 		return
 	}
+	// the bound of the scan is the size of the input list and stays fixed during the scan
+	boundOK := false
+	if b, ok := unparen(main.Cond).(*ast.BinaryExpr); ok && b.Op == token.LSS && identOf(b.Y) != nil {
+		nobj := info.Uses[identOf(b.Y)]
+		if d := di.single(nobj); d != nil {
+			if call, ok := unparen(d).(*ast.CallExpr); ok {
+				if sel, ok := unparen(call.Fun).(*ast.SelectorExpr); ok && sel.Sel.Name == "Size" {
+					boundOK = true
+				}
+			}
+		}
+	}
+	c.Ob(rule, fkey+"/scan-bound", main, boundOK, "the scan runs over the whole input list: its bound is ins.Size(), assigned once and never modified while scanning")
 	// non-macro elements are appended unchanged
 	keep := false
 	var eltObj types.Object
